@@ -23,8 +23,10 @@ RULE = ('cart case = version + label present/absent + five regions (random / 0xf
 ASSUMPTIONS = ['the Lua object is abstract in the theorems (its lexer/parser/echo are C06/C07/C08): the round-trip theorem '
                'assumes echo(lex(text)) = text for text that is already an echo and that the sanity re-lex succeeds',
                'Python int() on the (\\d+) group and "%s" % int are modelled by the stdlib Decimal conversions']
-PARTIAL = ('the Lua object (lexer, parser, echo writer) is abstract in the C03 theorems: sanity re-lex, non-empty last chunk and '
-           'echo stability are hypotheses; the round trip of the code text through the real lexer is checked by the monitor only')
+PARTIAL = ('C03_roundtrip / C03_rewrite_identical keep the Lua object abstract (sanity re-lex, non-empty last chunk, echo '
+           'stability as hypotheses); C03_roundtrip_lexer instantiates it with the lexer model and echo writer and discharges '
+           'them except two: the writer\'s sanity re-lex of its own echoed lines succeeds, and the parser accepts what the '
+           'lexer accepts (Lua.from_lines also parses); both are observed by the monitor on every case, not proved')
 TRUSTED = ['hand-written matchers for HEADER_VERSION_RE / SECTION_DELIM_RE (sources pinned; compared with re exhaustively on short strings)',
            'gen/kernels_p8file.py: the statement sequence of P8Formatter.to_file and the dispatch of from_file as data']
 CLAIM = dict(
